@@ -86,6 +86,55 @@ pub fn lookups<S: Sch>(rec: &mut Rec) {
         let d = do_check_comb::<S>(&keys.vk, &lcs, &comms, &lqs, &empty, &lcp, &mut sponge, &mut rng);
         refused(rec, S::NAME, "check_combinations", "missing-evaluation", &id, d.accepted(), format!("check_combinations accepted without the combination's claimed value: {}", d.short()));
     }
+    // (d') the same with combinations that carry a constant term: `p0 - p0(z)` (vanishes at z, so a verifier that
+    // supplies a default of zero for the missing claim would ACCEPT) and `p0 + 1`; with an empty evaluation table and
+    // with a table that lacks only the entry of one of two queried combinations
+    {
+        use ark_poly::Polynomial;
+        use ark_poly_commit::LCTerm;
+        let v0 = c.polys[0].polynomial().evaluate(&z);
+        let mut l_van = LinearCombination::<S::F>::empty("V");
+        l_van.push((S::F::one(), LCTerm::PolyLabel("p0".into())));
+        l_van.push((-v0, LCTerm::One));
+        let mut l_one = LinearCombination::<S::F>::empty("W");
+        l_one.push((S::F::one(), LCTerm::PolyLabel("p0".into())));
+        l_one.push((S::F::one(), LCTerm::One));
+        let lcs2 = vec![l_van, l_one];
+        let mut q2 = QuerySet::<S::Pt>::new();
+        q2.insert(("V".into(), (zl.clone(), z.clone())));
+        q2.insert(("W".into(), (zl.clone(), z.clone())));
+        let mut sponge = sponge_pre::<S::F>(0);
+        let mut rng = seed_rng(rec.seed, 20);
+        if let Ok(lcp) = do_open_comb::<S>(&keys.ck, &lcs2, &polys, &comms, &q2, &mut sponge, &states, Some(&mut rng as &mut dyn RngCore)) {
+            let mut full: Evaluations<S::Pt, S::F> = Evaluations::new();
+            full.insert(("V".to_string(), z.clone()), S::F::zero());
+            full.insert(("W".to_string(), z.clone()), v0 + S::F::one());
+            let seed0 = rec.seed;
+            let run = |ev: &Evaluations<S::Pt, S::F>| {
+                let mut sponge = sponge_pre::<S::F>(0);
+                let mut rng = seed_rng(seed0, 40);
+                do_check_comb::<S>(&keys.vk, &lcs2, &comms, &q2, ev, &lcp, &mut sponge, &mut rng)
+            };
+            let base2 = run(&full);
+            rec.class(if base2.accepted() { "baseline-accepted" } else { "baseline-rejected" });
+            for (what, ev) in [
+                ("empty-table", Evaluations::<S::Pt, S::F>::new()),
+                ("vanishing-combination-missing", {
+                    let mut e = full.clone();
+                    e.remove(&("V".to_string(), z.clone()));
+                    e
+                }),
+                ("other-combination-missing", {
+                    let mut e = full.clone();
+                    e.remove(&("W".to_string(), z.clone()));
+                    e
+                }),
+            ] {
+                let d = run(&ev);
+                refused(rec, S::NAME, "check_combinations", "missing-evaluation", &id, d.accepted(), format!("check_combinations accepted although the claimed value of a combination with a constant term is missing ({}): {}", what, d.short()));
+            }
+        }
+    }
     // (e) hiding requested without an RNG
     if S::HIDING || S::NEEDS_RNG {
         let p = lp::<S>("h", c.polys[0].polynomial().clone(), None, if S::HIDING { Some(1) } else { None });
